@@ -17,7 +17,14 @@ from .specs import (AnySpecifier, EmptySpecifier, RangeSpecifier, UnionSpecifier
 from dep_logic.markers.single import MarkerExpression  # noqa: E402
 from dep_logic.markers import AnyMarker, EmptyMarker  # noqa: E402
 
-THEOREMS_BY_PROP = {"C11": [], "C13": [], "C14": [], "C10": []}
+THEOREMS_BY_PROP = {
+    "C11": [],
+    "C13": ["DepLogic.C13.spec_refl", "DepLogic.C13.spec_symm", "DepLogic.C13.spec_trans", "DepLogic.C13.spec_hash",
+            "DepLogic.C13.spec_interchangeable", "DepLogic.C13.eq_of_beq", "DepLogic.C13.marker_equivalence",
+            "DepLogic.C13.marker_congruence", "DepLogic.C13.marker_eval_congr"],
+    "C14": [],
+    "C10": ["DepLogic.C10.call_ok", "DepLogic.C10.history_transparent", "DepLogic.C10.probe_independent",
+            "DepLogic.C10.not_transparent_without_wf"]}
 THEOREMS: list[str] = []
 
 # ----------------------------------------------------------------------------- C11
